@@ -35,6 +35,7 @@ def base():
                               '    - via\n'
                               '    - leaf2\n'
                               '    - mid2\n'
+                              '    - mid3\n'
                               '    - wrap\n'
                               '    - sbaware\n'
                               '    - weakuser\n'
@@ -94,7 +95,9 @@ def base():
     f['recipes/leaf2.yaml'] = ('buildTools: [t]\nbuildVars: [LV]\nbuildScript: |\n    echo leaf2 $LV\npackageScript: |\n    echo leaf2-pkg\n')
     f['recipes/leaf3.yaml'] = ('packageTools: [t]\nbuildScript: |\n    echo leaf3\npackageScript: |\n    echo leaf3-pkg\n')
     f['recipes/mid2.yaml'] = ('depends: [leaf2, leaf3]\nbuildScript: |\n    echo mid2 $1\npackageScript: |\n    echo mid2-pkg\n')
-    f['recipes/wrap.yaml'] = ('depends:\n    - name: tool-t2\n      use: [tools]\n      forward: True\n    - mid2\n'
+    # mid3: uses no tool itself, its only dependency (tool user leaf2) is already memoised when mid3 is first visited
+    f['recipes/mid3.yaml'] = ('depends: [leaf2]\nbuildScript: |\n    echo mid3 $1\npackageScript: |\n    echo mid3-pkg\n')
+    f['recipes/wrap.yaml'] = ('depends:\n    - name: tool-t2\n      use: [tools]\n      forward: True\n    - mid2\n    - mid3\n'
                               'buildScript: |\n    echo wrap $1\npackageScript: |\n    echo wrap-pkg\n')
     f['recipes/tool-t2.yaml'] = ('buildScript: |\n    echo tool2-build\n'
                                  'packageScript: |\n    echo tool2-pkg\n'
